@@ -15,7 +15,8 @@ STRINGS = ["", "a", "b", "ab", "é", "é", "日本", "x/y", "~", "0", "1", " ",
 SPECIAL_NUMS = ["0", "1", "-1", "2", "3", "0.5", "-0.5", "1.5", "2.25", "100", "127", "128", "-128", "-129", "255", "256",
                 "65535", "65536", "2147483647", "2147483648", "-2147483648", "4294967295", "4294967296",
                 "9007199254740992", "9007199254740993", "9223372036854775807", "-9223372036854775808",
-                "18446744073709551615", "0.125", "1e2", "1024", "0.0009765625"]
+                "18446744073709551615", "0.125", "1e2", "1024", "0.0009765625", "9223372036854775808", "18446744073709549568",
+                "-9223372036854775808", "1e19"]
 
 
 def dec(fr):
